@@ -14,8 +14,10 @@ precedence relation, not by the table), of the fully parenthesised spelling
 and of every layout variant must be the tree the term denotes, both spellings
 must evaluate to the same results, and malformed strings must be rejected.
 """
-import json, os, re, time
+import json, os, re, sys, time
 import vlib
+
+sys.setrecursionlimit(20000)
 
 IMPORTS = ("From Coq Require Import String.\nFrom YQ Require Import Base.Str Base.Regex Gen.OpTable Gen.LexRules Model.Postfix Model.Tree Model.PostProcess Model.Lexer.\n"
            "Open Scope string_scope.")
@@ -220,6 +222,8 @@ def render(t, mode, rng=None):
                 inner.append(lx_op(";"))
             inner += la
         return [Lex(t[1], 'CO "%s" [] false %s' % (var, cbool(cpt)), "word")] + wrap(inner)
+    if k == "paren":
+        return wrap(render(t[1], mode, rng))
     if k == "collect":
         inner = render(t[1], mode, rng) if t[1] is not None else []
         if inner:
@@ -285,6 +289,8 @@ def expected(t):
         if len(args) == 1:
             return ser(typ, "", "_", expected(args[0]))
         return ser(typ, "", "_", ser("BLOCK", "", expected(args[0]), expected(args[1])))
+    if k == "paren":
+        return expected(t[1])
     if k == "collect":
         return ser("COLLECT", "", "_", expected(t[1]) if t[1] is not None else ser("EMPTY"))
     if k == "object":
@@ -623,6 +629,26 @@ def run(chk):
                 add_term(("bin", o, ("chain", ("fn", f, args), [(".", "b", False)]), ("chain", ("fn", f, args), [("[", ("num", "0"), False)])), [], "opfn")
         add_term(("bin", o, ("chain", A, [("[", B, False), (".", "b", False)]), ("chain", ("self",), [("[", None, False)])), ["tight"], "opchain")
         add_term(("bin", o, ("collect", ("bin", o, A, B)), ("object", ("bin", ":", ("str", "k"), ("bin", "+", A, B)))), ["newline"], "opbr")
+    # (2b) long chains of one operator: grouping and acceptance must not depend on the length; the last / a middle
+    # operand in redundant parentheses, a function call, a collect, an index
+    for sym in ("|", ",", "+", "//", "and"):
+        for n in ((50, 100, 150, 300) if not thorough else (50, 99, 100, 101, 150, 300, 600)):
+            for last in (A, ("paren", A), ("fn", "select", [A]), ("fn", "has", [("str", "a")]), ("collect", A), ("chain", A, [("[", ("num", "0"), False)])):
+                t = last
+                for k in range(n - 1):
+                    t = ("bin", sym, ("paren", C) if k == n // 2 and last[0] == "paren" else A, t)
+                ti = len(terms)
+                terms.append((t, "long"))
+                lmin = render(t, "min")
+                cases.append((ti, "min", lmin, "space", layout(lmin, "space", rng)))
+                if last[0] in ("paren", "fn") and n in (100, 300):
+                    lfull = render(t, "full")
+                    cases.append((ti, "full", lfull, "space", layout(lfull, "space", rng)))
+            # the same chain inside a bracket / as a function argument
+            t = ("collect", t)
+            terms.append((t, "long"))
+            lmin = render(t, "min")
+            cases.append((len(terms) - 1, "min", lmin, "tight", layout(lmin, "tight", rng)))
     # (3) random terms
     n_rand = 12000 if thorough else 800
     rand_start = len(terms)
@@ -756,6 +782,10 @@ def run(chk):
 
     for i, c in enumerate(cases):
         # quick tier: the exhaustive operator-pair families go to the model one in three (all of them to the implementation)
+        if terms[c[0]][1] == "long":
+            # the model lexer is quadratic in the text length under vm_compute: short chains only (all lengths go to the implementation)
+            add_model(c[4], impl[i], len(c[4]) < (1500 if thorough else 450))
+            continue
         add_model(c[4], impl[i], thorough or terms[c[0]][1] not in ("pair", "opfn") or i % 5 == 0)
     for k, (direct, bracketed) in enumerate(pair_cases):
         add_model(direct, impl_class(presp2[2 * k]), thorough or k % 3 == 0)
@@ -1004,6 +1034,56 @@ def run(chk):
             pass   # C11's business; equality above already compares the classes
     T["eval"] = round(time.time() - chk.t0, 1)
     chk.extra["stage_seconds_cumulative"] = T
+    # ---------------------------------------------------------------- string interpolation: "\(e1) .. \(ek)" re-parses each ei when evaluated
+    # (a) fixed sub-expressions with nested brackets of every kind at every position 1..4, against concatenation with to_string
+    # (b) random sub-expressions: minimal vs fully parenthesised vs redundantly parenthesised spelling inside the literal
+    subs = [".b", "(.b)", "((.b))", ".a.b", "(.a).b", ".c | length", "(.c | length)", "(.c) | (length)", ".c[1]", ".c[(1)]", "(.c)[1]", "[.b] | .[0]", "[(.b)] | (.[0])",
+            "{.k1: .b} | .s", "{(.k1): (.b)} | (.s)", ".c | map(. + 1) | .[0]", ".c | map((. + 1)) | (.[0])", "select(.b == 5) | .b", "(select((.b) == (5))) | .b",
+            ".b + 1", "(.b) + (1)", "(.b + (1 * (2)))", ".c | (.[1]) | (. * (2))"]
+    idoc = DOCS[0]
+    ireqs, imeta = [], []
+    for pos in range(1, 5):
+        for e in subs:
+            lit = "\"" + "".join("\\(.b)-" for _ in range(pos - 1)) + "\\(" + e + ")" + "!\""
+            ref = "".join("(.b | to_string) + \"-\" + " for _ in range(pos - 1)) + "((" + e + ") | to_string) + \"!\""
+            ireqs += [eval_req(lit, idoc), eval_req(ref, idoc)]
+            imeta.append((lit, ref, idoc))
+    n_irand = 600 if thorough else 60
+    made = 0
+    guard = 0
+    while made < n_irand and guard < 50 * n_irand:
+        guard += 1
+        k = rng.choice([1, 2, 2, 3, 4])
+        ts = [gen_term(rng, rng.choice([1, 2, 2, 3]), for_eval=True) for _ in range(k)]
+        spell = []
+        for mode in ("min", "full", "red"):
+            parts = [layout(render(t, mode, rng), "space", rng) for t in ts]
+            spell.append(parts)
+        if any(("\"" in x or "\\" in x or "#" in x) for parts in spell for x in parts):
+            continue
+        lits = ["\"" + "".join("<\\(" + x + ")>" for x in parts) + "\"" for parts in spell]
+        d = rng.choice(DOCS[:3])
+        ireqs += [eval_req(lits[0], d), eval_req(lits[1], d)]
+        imeta.append((lits[0], lits[1], d))
+        ireqs += [eval_req(lits[0], d), eval_req(lits[2], d)]
+        imeta.append((lits[0], lits[2], d))
+        made += 1
+    iresp = vlib.yqh_parallel(ireqs)
+    nint = 0
+    int_ok = 0
+    for k, (ea, eb, d) in enumerate(imeta):
+        oa, ob = eval_obs(iresp[2 * k]), eval_obs(iresp[2 * k + 1])
+        chk.count(("interp", ea, eb), nontrivial=(oa[0] == "ok"), sample={"literal": ea, "same_as": eb} if k % 37 == 5 else None)
+        if oa[0] == "ok":
+            int_ok += 1
+        if oa != ob:
+            nint += 1
+            if nint <= 3:
+                chk.violation({"kind": "eval", "expr_a": ea, "expr_b": eb, "doc": d, "result_a": repr(oa)[:300], "result_b": repr(ob)[:300]}, True,
+                              "a string interpolation does not evaluate like the same sub-expressions written outside the literal / with other parentheses")
+    chk.extra["interpolation_pairs"] = len(imeta)
+    chk.extra["interpolation_ok"] = int_ok
+    dist["interpolation/pairs"] = len(imeta)
     chk.extra["eval_triples"] = len(emeta)
     chk.extra["eval_ok"] = ok_evals
     dist["eval/ok"] = ok_evals
